@@ -29,20 +29,20 @@ type Oblig struct {
 	Pos     token.Position
 	Err     string // generation error (clause could not be resolved) -> counts as failed
 	// filled by solver
-	Result string
-	Solver string
-	Time   float64
-	Model  string
-	prel   *Prelude
-	nline  int // number of body lines of the prelude that are in scope
+	Result    string
+	Solver    string
+	Time      float64
+	Model     string
+	prel      *Prelude
+	nline     int  // number of body lines of the prelude that are in scope
 	relaxed   bool // query without quantified modelling facts
 	candidate bool // Model is a candidate from the relaxed query
 	// for replay
-	fn        *ssa.Function
-	clause    *SExpr
-	heapNames map[string]Sort // heap universe of the encoding (initial versions are <name>_v0)
+	fn         *ssa.Function
+	clause     *SExpr
+	heapNames  map[string]Sort // heap universe of the encoding (initial versions are <name>_v0)
 	paramTerms []Term
-	sorts     *Sorts
+	sorts      *Sorts
 }
 
 // Prelude accumulates the SMT context of one function encoding.
@@ -76,69 +76,69 @@ func (s *State) clone() *State {
 
 // FuncEnc encodes one top-level function (with inlined callees).
 type FuncEnc struct {
-	eng    *Engine
-	fn     *ssa.Function
-	fc     *FuncContract
-	pre    *Prelude
-	sorts  *Sorts
-	ctr    int
-	obls   []*Oblig
-	heapSorts map[string]Sort // universe of heaps (name -> sort)
-	heapStable map[string]bool
-	notes  []string // unsupported constructs encountered
-	allocs []string // fresh refs allocated so far (for distinctness)
-	protected map[string]types.Type // alloc refs that never escape: ref -> pointee type
-	nowLast string
-	top    *Frame
-	calls  []*CallSite // call sites of the top frame in instruction order
-	opCount map[string]int
-	depth  int
+	eng            *Engine
+	fn             *ssa.Function
+	fc             *FuncContract
+	pre            *Prelude
+	sorts          *Sorts
+	ctr            int
+	obls           []*Oblig
+	heapSorts      map[string]Sort // universe of heaps (name -> sort)
+	heapStable     map[string]bool
+	notes          []string              // unsupported constructs encountered
+	allocs         []string              // fresh refs allocated so far (for distinctness)
+	protected      map[string]types.Type // alloc refs that never escape: ref -> pointee type
+	nowLast        string
+	top            *Frame
+	calls          []*CallSite // call sites of the top frame in instruction order
+	opCount        map[string]int
+	depth          int
 	assumedCallees map[string]bool
 	inlinedCallees map[string]bool
-	usedContracts map[string]bool
-	usedFns       map[*ssa.Function]bool // callees whose contract was applied at a call site
-	usedIfaces    map[string]bool        // interface-method contracts applied at invoke sites
-	pass   int
-	seqLen map[string]string // spec-level sequences: element-array term -> length term
-	sentinelVals []string
-	linked map[string]bool
-	curState *State
-	cvSeen map[string]bool
-	storeReach map[string][]string // "Type.field" -> reach conditions of direct stores (all frames)
+	usedContracts  map[string]bool
+	usedFns        map[*ssa.Function]bool // callees whose contract was applied at a call site
+	usedIfaces     map[string]bool        // interface-method contracts applied at invoke sites
+	pass           int
+	seqLen         map[string]string // spec-level sequences: element-array term -> length term
+	sentinelVals   []string
+	linked         map[string]bool
+	curState       *State
+	cvSeen         map[string]bool
+	storeReach     map[string][]string // "Type.field" -> reach conditions of direct stores (all frames)
 }
 
 type CallSite struct {
-	instr  ssa.CallInstruction
-	names  []string // names this call site answers to
-	reach  string   // alive condition right before the call
-	args   []Term
-	recv   *Term
-	rets   []Term
-	pre    *State // state before call
-	block  *ssa.BasicBlock
+	instr   ssa.CallInstruction
+	names   []string // names this call site answers to
+	reach   string   // alive condition right before the call
+	args    []Term
+	recv    *Term
+	rets    []Term
+	pre     *State // state before call
+	block   *ssa.BasicBlock
 	encoded bool
-	depth  int // 0 = the function under verification; >0 = inside an inlined callee
+	depth   int // 0 = the function under verification; >0 = inside an inlined callee
 }
 
 // Frame is one function activation (top-level or inlined).
 type Frame struct {
-	fe     *FuncEnc
-	fn     *ssa.Function
-	prefix string
-	vals   map[ssa.Value]Term
-	tuples map[ssa.Value][]Term
-	params []Term
-	free   []Term
-	edges  map[edgeKey]*edgeInfo
-	closures map[ssa.Value]*ssa.MakeClosure
-	depth  int
-	entry  *State
-	init   *State // state at function entry (for old())
-	defers []*ssa.Defer
+	fe         *FuncEnc
+	fn         *ssa.Function
+	prefix     string
+	vals       map[ssa.Value]Term
+	tuples     map[ssa.Value][]Term
+	params     []Term
+	free       []Term
+	edges      map[edgeKey]*edgeInfo
+	closures   map[ssa.Value]*ssa.MakeClosure
+	depth      int
+	entry      *State
+	init       *State // state at function entry (for old())
+	defers     []*ssa.Defer
 	deferReach map[*ssa.Defer]string
-	loopCtx map[*ssa.BasicBlock]*loopInfo
-	blockIn map[*ssa.BasicBlock]*State
-	retNames []string
+	loopCtx    map[*ssa.BasicBlock]*loopInfo
+	blockIn    map[*ssa.BasicBlock]*State
+	retNames   []string
 }
 
 type edgeKey struct {
